@@ -133,6 +133,13 @@ class Partial:
         self.func, self.args, self.kwargs = func, list(args), dict(kwargs)
 
 
+class PropertyVal:
+    """property(fget, fset) object created at run time (e.g. by a property factory)"""
+
+    def __init__(self, fget, fset=None):
+        self.fget, self.fset = fget, fset
+
+
 class BoundMethod:
     def __init__(self, func, self_val):
         self.func = func
